@@ -162,6 +162,10 @@ func TestWorker(t *testing.T) {
 			emit("ERROR", map[string]string{"error": "no workload"})
 			return
 		}
+		// history independence: job.Count other runs executed first in this process must not change the result
+		for k := 1; k <= job.Count; k++ {
+			_ = execute(t, ws[0], job.Tier, job.Base+uint64(k)*7919, job.Start+k, execOpts{})
+		}
 		res := execute(t, ws[0], job.Tier, job.Base, job.Start, execOpts{trace: true, keepTape: true})
 		h := sha256.New()
 		for _, l := range res.Trace {
